@@ -233,6 +233,10 @@ pub struct Stats {
     pub depth_changes: u32,
     /// polls performed by inline tasks from inside a waker call
     pub inline_polls: u32,
+    /// futures of completed future operations destroyed by the library (checked to happen inside the operation's slot)
+    pub futures_destroyed_after_completion: u32,
+    /// one task awaited two futures with one waker
+    pub joins: u32,
     /// an input stream woke its last waker from its destructor
     pub stream_drop_wakes: u32,
     /// an input stream woke its own waker from inside poll_next
